@@ -5,6 +5,9 @@ Rust subset for a setter body (whitespace-insensitive, `<cfg>` is `self.config`,
 `self.builder.config`):
     <cfg>.FIELD = true;            -> .setTrue FIELD
     <cfg>.FIELD = ARG;             -> .setArg FIELD        (also `ARG as u32`)
+    <cfg>.FIELD = false;           -> .setFalse FIELD
+    <cfg>.FIELD = !ARG;            -> .setNotArg FIELD
+    if ARG { <cfg>.FIELD = true; } -> .setTrueIfArg FIELD
     if ARG == 0 { panic!("{}", MSG); }                       -> .failIfZero MSG
     if ARG < 1 { return Err(JsValue::from(MSG)); }           -> .failIfZero MSG
     if ARG <= 0 { Err(PyValueError::new_err(MSG)) } else { <assign>; Ok(self_) }  -> .failIfNonPos MSG, assign
@@ -102,7 +105,7 @@ def parse_setter(t, where, name, params, body, cfg_re, self_names):
     final_ok = "|".join(re.escape(x) for x in self_names)
 
     def assign(text):
-        mm = re.fullmatch(cfg_re + r"\s*\.\s*(\w+) = (true|\w+|\w+ as u32)", norm(text))
+        mm = re.fullmatch(cfg_re + r"\s*\.\s*(\w+) = (true|!\s*\w+|\w+|\w+ as u32)", norm(text))
         if not mm:
             raise t.TranslateError(f"{where}: fn {name}: unsupported statement {text!r}")
         f = mm.group(1)
@@ -111,6 +114,12 @@ def parse_setter(t, where, name, params, body, cfg_re, self_names):
         rhs = mm.group(2)
         if rhs == "true":
             return f".setTrue .{FIELDS[f]}"
+        if rhs == "false":
+            return f".setFalse .{FIELDS[f]}"
+        if rhs.startswith("!"):
+            if rhs[1:].strip() != arg_name or arg_kind != "bool":
+                raise t.TranslateError(f"{where}: fn {name}: right-hand side {rhs!r} is not the negated argument")
+            return f".setNotArg .{FIELDS[f]}"
         if rhs.split(" ")[0] != arg_name:
             raise t.TranslateError(f"{where}: fn {name}: right-hand side {rhs!r} is not the argument")
         return f".setArg .{FIELDS[f]}"
@@ -129,6 +138,14 @@ def parse_setter(t, where, name, params, body, cfg_re, self_names):
             if mm.group(1) != arg_name or msg not in MSGS:
                 raise t.TranslateError(f"{where}: fn {name}: unsupported guard")
             stmts.append(f".failIfZero .{MSGS[msg]}")
+            rest = rest[mm.end():]
+            continue
+        mm = re.match(r"if (\w+) \{ ([^;{}]+); \}\s*", rest)
+        if mm and mm.group(1) == arg_name and arg_kind == "bool":
+            a = assign(mm.group(2))
+            if not a.startswith(".setTrue "):
+                raise t.TranslateError(f"{where}: fn {name}: unsupported conditional statement {mm.group(0)!r}")
+            stmts.append(a.replace(".setTrue ", ".setTrueIfArg "))
             rest = rest[mm.end():]
             continue
         mm = re.match(r"([^;{}]+);\s*", rest)
